@@ -77,31 +77,31 @@ def unit_load_data(tier=None, seed=None):
         S.ok("returns")
         n, ii, loads, values = st["n"], st["ii"], st["loads"], st["values"]
         S.ensure("searches_force_distance_data", st.get("find_modality") == "force-distance")
-        S.ensure("one_load_per_file", len(loads) == 1)
-        if loads:
-            ld = loads[0]
-            cls = st["mod"].env.vars["Indentation"]
+        # (how often afmformats is called and what else is forwarded to it is not part of the property;
+        #  loading a file twice would show up in result_is_concatenation_in_order)
+        S.ensure("file_is_loaded", len(loads) >= 1)
+        cls = st["mod"].env.vars["Indentation"]
+        for ld in loads:
             dc = ld.get("data_classes_by_modality")
             S.ensure("indentation_class_for_all_modalities",
                      isinstance(dc, sx.SDict) and all(dc.d.get(m, [0, None])[1] is cls
                                                       for m in ("force-distance", "creep-compliance", "stress-relaxation"))
                      and ld.get("modality") == "force-distance")
-            S.ensure("meta_override_forwarded", ld.get("meta_override") is st["mo"])
         S.ensure("result_is_concatenation_in_order", list(out.value) == st["meas"])
         if st["with_cb"]:
-            S.ensure("progress_reported_for_each_step", len(values) == 2)
-            if len(values) == 2:
-                v1, v2 = V.rterm(values[0]), V.rterm(values[1])
-                nr, ir = z3.ToReal(n), z3.ToReal(ii)
-                # (the statement only asks for monotone values in [0, 1]; the exact formula is not pinned)
-                S.ensure("progress_within_0_1", z3.And(v1 >= 0, v1 <= 1, v2 >= 0, v2 <= 1))
-                S.ensure("progress_monotone_within_file", v1 <= v2)
-                # across files: the same term for file ii+1 at x=0 is not below this file's at x=1
-                nxt = z3.substitute(v1, (ii, ii + 1), (st["x1"], z3.RealVal(0)))
-                last = z3.substitute(v2, (st["x2"], z3.RealVal(1)))
+            S.ensure("progress_reported", len(values) >= 1)
+            if values:
+                vs = [V.rterm(v) for v in values]
+                # (the statement asks for non-decreasing values within [0, 1]; neither the formula, nor the number of
+                #  calls per file, nor the final value is pinned)
+                S.ensure("progress_within_0_1", z3.And(*[z3.And(v >= 0, v <= 1) for v in vs]))
+                S.ensure("progress_monotone_within_file", z3.And(*[a <= b for a, b in zip(vs, vs[1:])])
+                         if len(vs) > 1 else True)
+                # across files: the first value reported for file ii+1 (at x=0) is not below the last one of this file
+                # (at x=1)
+                nxt = z3.substitute(vs[0], (ii, ii + 1), (st["x1"], z3.RealVal(0)))
+                last = z3.substitute(vs[-1], (st["x2"], z3.RealVal(1)))
                 S.ensure("progress_monotone_across_files", z3.Implies(ii + 1 < n, nxt >= last))
-                lastfile = z3.substitute(v2, (ii, n - 1), (st["x2"], z3.RealVal(1)))
-                S.ensure("progress_ends_at_1", lastfile == 1)
         else:
             S.ensure("no_callback_no_progress", not values)
 
